@@ -347,6 +347,15 @@ def engine_seq(pid, tier, evidence=True):
                 lj.append({"id": f"l18-{lvl}-{i}", "mode": "lock", "backend": "sqlite", "instances": "shared", "cfg": {"days": 14, "versions": 100},
                            "seed": [{"op": o, "arg": ARGK_SYM[a]} for o, a in FAULT_HISTORIES[0][:i]], "reqs": [{"op": op, "argk": argk, "lvl": lvl}],
                            "follow": [], "max_rounds": 120})
+        # ... and when the disk is slow (one I/O call of the request takes 6 s): a server that gives up on the request must
+        # not let it take effect afterwards
+        for i in ((1, 2, 7) if tier == "quick" else range(len(FAULT_HISTORIES[0]))):
+            op, argk = FAULT_HISTORIES[0][i]
+            if not op.startswith("Add"):
+                continue
+            lj.append({"id": f"s18-{i}", "mode": "slow", "delay_ms": 6000, "backend": "sqlite", "instances": "shared", "cfg": {"days": 14, "versions": 100},
+                       "seed": [{"op": o, "arg": ARGK_SYM[a]} for o, a in FAULT_HISTORIES[0][:i]], "reqs": [{"op": op, "argk": argk, "lvl": "http"}],
+                       "follow": [], "max_rounds": 120})
         wdl = workdir("lock18")
         lfiles, _nl, _pl = run_conc_jobs(binary, lj, wdl)
         lviols, ltot = judge(lfiles, spec="TraceConc.tla")
@@ -1225,10 +1234,11 @@ def engine_conc(pid, tier, evidence=True, focus=None):
             for lvl in ("http", "lib"):
                 if lvl == "lib" and sdn == "Seed0":
                     continue
-                jobs.append({"id": f"s{i}-{lvl}-{rep}", "mode": "random", "raw": True, "backend": "sqlite", "instances": "multi", "cfg": {"days": 14, "versions": 100},
-                             "seedname": sdn, "seed": CONC_SEEDS[sdn], "reqs": [{"op": o, "argk": a, "lvl": lvl} for o, a in reqs4],
-                             "rounds": 60 if focus is not None else 150, "max_rounds": 150, "rseed": rng.randint(1, 2**31)})
-                nstress += 1
+                for inst in ("multi", "shared"):     # one server object per request (separate processes) / one for all (the workers of one process)
+                    jobs.append({"id": f"s{i}-{lvl}-{rep}-{inst}", "mode": "random", "raw": True, "backend": "sqlite", "instances": inst, "cfg": {"days": 14, "versions": 100},
+                                 "seedname": sdn, "seed": CONC_SEEDS[sdn], "reqs": [{"op": o, "argk": a, "lvl": lvl} for o, a in reqs4],
+                                 "rounds": 40 if focus is not None else 90, "max_rounds": 100, "rseed": rng.randint(1, 2**31)})
+                    nstress += 1
     t1 = time.time()
     files, nrounds, perjob = run_conc_jobs(binary, jobs, wd)
     t2 = time.time()
@@ -1245,9 +1255,12 @@ def engine_conc(pid, tier, evidence=True, focus=None):
         hj = seqplan.history_jobs(rng, 16 if tier == "quick" else 120, 80, 1)
         for j in hj:
             j["instances"] = 2
+        # requests that overlap while their BODIES arrive (real sockets, one in-process HttpServer, pieces interleaved): the order
+        # in which the bodies complete is the one-at-a-time order every sequential predicate must hold for
+        hj += seqplan.overlap_jobs(rng, 6 if tier == "quick" else 48, 1 + len(hj), many=True)
         wd2 = os.path.join(wd, "twoinst")
         os.makedirs(wd2)
-        summ2, f2 = run_harness_sharded(binary, "seq", {"threads": 1, "needs_clock": True, "jobs": hj}, wd2)
+        summ2, f2 = run_harness_sharded(binary, "seq", {"threads": 1, "needs_clock": True, "jobs": hj}, wd2, env=SOCK_ENV)
         v2, tot2 = judge(split_trace(f2, os.path.join(wd2, "chunks")))
         jb = {j["run"]: j for j in hj}
         for v in v2:
@@ -1257,7 +1270,7 @@ def engine_conc(pid, tier, evidence=True, focus=None):
             ev = load_event(v["file"], v["line"])
             job = jb.get(v["run"], {})
             found.append(dict(sig=dict(engine="seq2i", names=sorted(names_), op=ev["req"]["op"], resp=ev["resp"]["kind"], backend=job.get("backend")),
-                              what=f"C03 (two server instances on one data directory, requests one after the other): predicate(s) {names_} false at step {v['i']} "
+                              what=f"C03 ({'uploads overlapping while their bodies arrive, judged in their order of completion' if job.get('kind') == 'overlap' else 'two server instances on one data directory, requests one after the other'}): predicate(s) {names_} false at step {v['i']} "
                                    f"({job.get('backend')}/{job.get('driver')}): {json.dumps(ev['req'])} -> {json.dumps(ev['resp'])}",
                               replay=dict(engine="seq", predicate=names_[0], job=dict(job, steps=job.get("steps", [])[: max(0, v["i"]) + 1]))))
         two_inst = dict(histories=len(hj), events_judged=tot2)
